@@ -1,8 +1,81 @@
-"""C19 -- file-system property; see fscommon.py and coq/theories/Props/C19.v"""
+"""C19 -- protection is honoured until it is removed: file-system level (see fscommon.py and coq/theories/Props/C19.v) and the
+write-protect flag of a 2MG container (real binary)."""
+import os, tempfile, shutil, json
+import framework as fw
 import fscommon
+
+NEEDS_BINS = True
+
+
+def dot2mg_scenarios(ctx):
+    """a 2MG container flagged write-protected: delete, rename, lock, retype, put of a file, of a sector, a block and a raw track
+    must all be refused and leave the file untouched, reading still works, and clearing the flag makes them possible again"""
+    import cliutil
+    from cliutil import run as cli, sha
+    d = tempfile.mkdtemp(dir=fw.BUILD)
+    try:
+        for osn, wrap, extra in [('dos33', 'nib', ['-v', '254']), ('dos33', 'do', ['-v', '254']), ('prodos', 'po', ['-v', 'VOL'])]:
+            p = os.path.join(d, f'{osn}-{wrap}.2mg')
+            if cli(['mkdsk', '-o', osn, '-t', '2mg', '-w', wrap, '-k', '5.25in', '-d', p] + extra)[0] != 0:
+                continue
+            cli(['put', '-d', p, '-f', 'HELLO', '-t', 'txt'], stdin=b'HELLO\n')
+            cli(['put', '-d', p, '-f', 'OTHER', '-t', 'txt'], stdin=b'OTHER\n')
+            rc, meta, _ = cli(['get', '-d', p, '-t', 'meta'])
+            try:
+                flags = json.loads(meta.decode())['2mg']['header']['flags']
+            except Exception:
+                ctx.failures.append({'cls': '2mg:setup', 'case': p, 'detail': 'metadata of the fresh image not readable'})
+                continue
+            locked = flags[:6] + '%02x' % (int(flags[6:8], 16) | 0x80)
+            if cli(['put', '-d', p, '-t', 'meta'], stdin=json.dumps({'2mg': {'header': {'flags': locked}}}).encode())[0] != 0:
+                ctx.failures.append({'cls': '2mg:setup', 'case': p, 'detail': 'could not set the write-protect flag'})
+                continue
+            trk = cli(['get', '-d', p, '-f', '17,0', '-t', 'raw_track'])[1] if wrap == 'nib' else b''
+            sec = cli(['get', '-d', p, '-f', '17,0,0', '-t', 'sec'])[1]
+            blk = cli(['get', '-d', p, '-f', '2', '-t', 'block'])[1]
+            cmds = [('delete', ['delete', '-d', p, '-f', 'HELLO'], None), ('rename', ['rename', '-d', p, '-f', 'HELLO', '-n', 'HOWDY'], None),
+                    ('lock', ['lock', '-d', p, '-f', 'HELLO'], None), ('retype', ['retype', '-d', p, '-f', 'HELLO', '-t', 'bin', '-a', '768'], None),
+                    ('put file', ['put', '-d', p, '-f', 'THIRD', '-t', 'txt'], b'THIRD\n'),
+                    ('put sector', ['put', '-d', p, '-f', '17,0,0', '-t', 'sec'], bytes(x ^ 0xff for x in sec) if sec else None),
+                    ('put block', ['put', '-d', p, '-f', '2', '-t', 'block'], bytes(x ^ 0xff for x in blk) if blk else None),
+                    ('put raw track', ['put', '-d', p, '-f', '17,0', '-t', 'raw_track'], bytes(x ^ 0x55 for x in trk) if trk else None)]
+            for name, argv, stdin in cmds:
+                if stdin is None and name.startswith('put '):
+                    continue
+                before = sha(p)
+                rc, out, err = cli(argv, stdin=stdin)
+                after = sha(p)
+                ctx.evaluations += 1
+                label = f'2mg-{wrap}:{osn} {name} while write-protected'
+                if after != before:
+                    ctx.failures.append({'cls': f'2mg:protected-changed:{name.replace(" ", "-")}', 'case': 'a2kit ' + ' '.join(argv).replace(p, '<img>'),
+                                         'detail': f'{label}: exit status {rc} and the image file changed'})
+                else:
+                    ctx.nontrivial.add(label)
+            rc, out, _ = cli(['get', '-d', p, '-f', 'HELLO', '-t', 'txt'])
+            ctx.evaluations += 1
+            if rc != 0 or out != b'HELLO\n':
+                ctx.failures.append({'cls': '2mg:read-affected', 'case': f'get HELLO from protected {osn}/{wrap}', 'detail': f'rc={rc} out={out[:40]!r}'})
+            # protection removed: the operations are possible again
+            cli(['put', '-d', p, '-t', 'meta'], stdin=json.dumps({'2mg': {'header': {'flags': flags}}}).encode())
+            rc1 = cli(['rename', '-d', p, '-f', 'HELLO', '-n', 'HOWDY'])[0]
+            rc2 = cli(['delete', '-d', p, '-f', 'OTHER'])[0]
+            ctx.evaluations += 1
+            if rc1 != 0 or rc2 != 0:
+                ctx.failures.append({'cls': '2mg:unprotect', 'case': f'rename/delete after clearing the flag on {osn}/{wrap}', 'detail': f'rename rc={rc1} delete rc={rc2}'})
+            else:
+                ctx.nontrivial.add(f'2mg-{wrap}:{osn} unprotected again')
+    finally:
+        shutil.rmtree(d, ignore_errors=True)
+
 
 def run(ctx, model_ok=True):
     fscommon.standard_run(ctx, 'C19', opts='r', lock_heavy=True, model_ok=model_ok)
+    dot2mg_scenarios(ctx)
 
 def replay(ctx, rp):
-    fscommon.replay(ctx, 'C19', rp)
+    f = rp.get('failure')
+    if f and f.get('cls', '').startswith('2mg:'):
+        dot2mg_scenarios(ctx)
+    else:
+        fscommon.replay(ctx, 'C19', rp)
